@@ -297,17 +297,21 @@ def hashOp (st : St) (h : Bytes → Bytes) : R St :=
   | a :: s => .ok { st with stack := h a :: s }
   | _ => invalidStack
 
+/-- script code of a pre-tapscript signature check: BASE deletes the signature from it (`FindAndDelete`);
+with CONST_SCRIPTCODE a deletion is an error -/
+def scriptCodeFor (c : Ctx) (st : St) (sig : Bytes) : R Bytes :=
+  if c.sv == .base then
+    if (findAndDelete st.code (pushData sig)).2 > 0 && c.flags.constScriptcode then .error .SIG_FINDANDDELETE
+    else .ok (findAndDelete st.code (pushData sig)).1
+  else .ok st.code
+
 /-- `EvalChecksigPreTapscript` -/
-def evalChecksigPre (c : Ctx) (st : St) (sig pk : Bytes) : R Bool := do
-  let code ←
-    if c.sv == .base then
-      let (code', found) := findAndDelete st.code (pushData sig)
-      if found > 0 && c.flags.constScriptcode then .error .SIG_FINDANDDELETE else pure code'
-    else pure st.code
-  checkSignatureEncoding c.flags sig
-  checkPubKeyEncoding c.flags c.sv pk
-  let ok ← c.chk.ecdsa sig pk code c.sv
-  if !ok && c.flags.nullfail && !sig.isEmpty then .error .NULLFAIL else pure ok
+def evalChecksigPre (c : Ctx) (st : St) (sig pk : Bytes) : R Bool :=
+  scriptCodeFor c st sig >>= fun code =>
+  checkSignatureEncoding c.flags sig >>= fun _ =>
+  checkPubKeyEncoding c.flags c.sv pk >>= fun _ =>
+  c.chk.ecdsa sig pk code c.sv >>= fun ok =>
+  if !ok && c.flags.nullfail && !sig.isEmpty then .error .NULLFAIL else .ok ok
 
 /-- `EvalChecksigTapscript`: returns success and the new validation weight. -/
 def evalChecksigTapscript (c : Ctx) (st : St) (sig pk : Bytes) : R (Bool × Int) := do
